@@ -60,6 +60,13 @@ def spec(tier):
                         continue
                 obs.append(CH(name=f"history_n{n}_d{depth}_w{w0}t{t0}", harness="c02.request_history", sym=sym,
                               fixed=fixed, timeout=3000 if th else 300))
+    # a late stage appended (Pipeline.new_operator) after the operators made progress: existing operators keep their states
+    obs.append(CH(name="history_late_operator_at2", harness="c02.request_history", sym=dict(e0=B, w1=I(0, 1), t1=I(0, 5), w2=I(0, 1), t2=I(0, 5)),
+                  fixed=dict(n=2, depth=3, w0=0, t0=1, e1=False, e2=False, w3=0, t3=0, grow_at=2), timeout=600))
+    obs.append(CH(name="history_late_operator_after_progress", harness="c02.request_history", sym=dict(e0=B, w2=I(0, 1), t2=I(0, 5), w3=I(0, 1), t3=I(0, 5)),
+                  fixed=dict(n=2, depth=4, w0=0, t0=1, w1=0, t1=2, e1=False, e2=False, grow_at=3), timeout=600))
+    obs.append(twin("history_grown", "c02.request_history", dict(e0=B, w2=I(0, 1), t2=I(0, 5), w3=I(0, 1), t3=I(0, 5)),
+                    dict(n=2, depth=4, w0=0, t0=1, w1=0, t1=2, e1=False, e2=False, grow_at=3), "grown"))
     obs.append(twin("history_deep", "c02.request_history", dict(e0=B, w1=I(0, 1), t1=I(0, 5), w2=I(0, 1), t2=I(0, 5)),
                     dict(n=2, depth=3, w0=0, t0=1, e1=False, e2=False, w3=0, t3=0), "deep"))
 
